@@ -141,6 +141,9 @@ def run(model: RepoModel, rep, tier: str):
                         "`import x, y`, a parameter list) is emitted inside that iteration, not once after the loop for the last name only", 30)
     generic2.check_per_iteration_values(model, rep, "C05.R11", sorted(r for r in model.modules if r.startswith("lang/") and r.endswith("_parser.py")),
                                         func_filter=generic2.emits(DECL_KEYS))
+    rep.rule("C05.R12", "no vacuous condition decides a binding: in the resolver and the scope / import builders no `E != a or E != b` "
+                        "(always true) or `E == a and E == b` (always false) guards a branch", 3)
+    generic2.check_vacuous_conditions(model, rep, "C05.R12", ["core/resolver.py", SH, IH, "basics/stmt_def_use_analysis.py"])
     from ..generic import check_accumulators
     check_accumulators(model, rep, "C05.R8", [SH, IH], C05_ADJUDICATED,
                        "declarations, visible scopes or import candidates gathered so far are incomplete, so some names stay unresolved or bind elsewhere", 5)
@@ -1257,6 +1260,37 @@ def _r9_hoisting(model, rep, RID="C05.R9"):
                 rep.unknown(RID, key, AVD, c.lineno, f"table `{norm(vk)}` not recognised")
     if not (seen["method"] and seen["block"] and seen["class"]):
         raise AnalysisError(f"{f.ref}: frame constructions not classified ({seen})")
+    # the table is keyed by NAMES: whatever is entered into a declared-name table (the local handed to StackFrame as `variables=`, or
+    # `<frame>.variables`) is entered under an expression that reads the `name` of a declaration -- the later lookups are by name
+    tables = {vk_.id for c_ in frames for vk_ in [kwarg(c_, "variables")] if isinstance(vk_, ast.Name)}
+    n_store = 0
+    for fn_ in [f] + [g_ for g_ in m.functions.values() if g_ is not f]:
+        for st_ in walk_no_nested(fn_.node):
+            if not (isinstance(st_, ast.Assign) and len(st_.targets) == 1 and isinstance(st_.targets[0], ast.Subscript)):
+                continue
+            base = st_.targets[0].value
+            is_table = (isinstance(base, ast.Name) and base.id in tables and fn_ is f) or (isinstance(base, ast.Attribute) and base.attr == "variables") \
+                or (isinstance(base, ast.Name) and base.id == "variables")
+            if not is_table:
+                continue
+            n_store += 1
+            kx = st_.targets[0].slice
+            exprs = [kx]
+            if isinstance(kx, ast.Name):
+                exprs += [a_.value for a_ in walk_no_nested(fn_.node) if isinstance(a_, ast.Assign) and isinstance(a_.targets[0], ast.Name) and a_.targets[0].id == kx.id]
+            by_name = any((isinstance(x, ast.Subscript) and isinstance(x.slice, ast.Constant) and x.slice.value == "name")
+                          or (isinstance(x, ast.Call) and isinstance(x.func, ast.Attribute) and x.func.attr == "get" and x.args and isinstance(x.args[0], ast.Constant)
+                              and x.args[0].value == "name") for e_ in exprs for x in ast.walk(e_)) or (isinstance(kx, ast.Name) and kx.id in fn_.params)
+            key = f"{AVD}::{fn_.qualname}::`{norm(st_.targets[0])}`::entered under the declaration's name"
+            if by_name:
+                rep.holds(RID, key, AVD, st_.lineno, f"key `{norm(kx)}` reads a `name`")
+            else:
+                rep.violation(RID, key, AVD, st_.lineno,
+                              f"`{norm(st_)}` enters `{norm(kx)}` into the declared-name table, which is not the name of a declaration: the names that "
+                              f"should be known (a method's parameters) are not, so the first assignment to one of them hoists a new local "
+                              f"declaration that shadows it -- the incoming value no longer reaches the uses of the parameter")
+    if not n_store:
+        raise AnalysisError(f"{f.ref}: no store into a declared-name table found")
     # the default of StackFrame.variables must be a per-instance dict
     sf = m.classes.get("StackFrame")
     key = f"{AVD}::StackFrame.variables default is per instance"
